@@ -69,7 +69,7 @@ var props = map[string]*propCfg{
 	},
 	"C08": {
 		ID: "C08", Scenario: "purity", Race: false,
-		QuickRuns: 60000, ThorRuns: 600000, QuickChunk: 400, ThorChunk: 1000, ChunkTimeoS: 1800,
+		QuickRuns: 60000, ThorRuns: 400000, QuickChunk: 400, ThorChunk: 1000, ChunkTimeoS: 1800,
 		Rule: "one evaluation = one simulated run: a history of 5-200 operations (REPEAT_EVAL of a corpus entry with a fresh runner and fresh equal data, REPARSE, FIELDS, unrelated NOISE formulas, POOL_FLUSH, CLOCK_JUMP; the corpus is 64/512 generated formulas plus a fixed collection of ~45 lexically or syntactically broken texts) on one task or on 2-4 tasks interleaved at statement level, under a fresh map-iteration order for every repetition and a seed-chosen process zone. Every repetition is compared with the baseline the worker process computed in pristine state at start (and baselines are compared across the ~60 worker processes); trees are deep-dumped (all fields, exported or not) after every evaluation and analysis. Non-trivial: at least two repeated evaluations in the history; distinct = distinct hash of the op scripts.",
 		Assumptions: []string{
 			"`now` and `toDay` are excluded as the statement says; formulas using `date` are compared only under the baseline's process zone",
